@@ -9,7 +9,7 @@ from ..monitors import trace
 from ..oracles import genaudit
 from ..util import StepTimeout, time_limit
 
-ARCHS = ["homo", "endinit", "random", "block", "alternating", "stepgrowth", "star", "graft", "hyper", "lists", "comb", "sidecap"]
+ARCHS = ["homo", "endinit", "random", "block", "alternating", "stepgrowth", "star", "graft", "hyper", "lists", "comb", "sidecap", "stopper"]
 CASE_TIMEOUT = 1500
 
 
